@@ -17,7 +17,9 @@ MCTargetsC == {TC1, TC2}
 MCTypes1 == {"remote.TestMessage"}
 MCData1 == {"d1"}
 HIdxTiny == {0, 2}
-MCTypes == {"remote.TestMessage", "actor.Ping"}
+MCTypes == {"remote.TestMessage", "actor.Ping", "actor.PID"}
+MCTypesReg == {"actor.PID"}
+MCDataBig == {"d1", "big"}
 MCData == {"d1", "d2"}
 \* hostile envelope space
 HTy == {<<>>, <<"remote.TestMessage">>, <<"remote.TestMessage", "nope.Unknown">>, <<"nope.Unknown">>}
